@@ -125,6 +125,17 @@ def table_writers(ctx, rule, crate, tag=""):
             ctx.ob(rule + tag, fn, "table-written-only-by-its-fetch-function:%s" % ty.split("<")[0].split("::")[-1], fn in by_type[ty], where_call(b, i),
                    "a %s is written here; its owner is %s" % (ty[:90], sorted(x.split("::")[-1] for x in by_type[ty])))
     ctx.floor(rule + tag, "writes to cache tables", n, 6)
+    # what is allocated in the two answer arenas is the provider's answer itself (seed C20-17: an abandoned request is answered
+    # with a freshly allocated, empty Candidates - the derived lists computed from it are cached for good)
+    for fn, arena, call in (("get_or_cache_candidates", "candidates", "get_candidates"),
+                            ("get_or_cache_dependencies", "solvable_dependencies", "get_dependencies")):
+        b = body_by_key(crate, CACHE + fn, coroutine=True)
+        if b is None:
+            continue
+        for i, t in q.calls_on_field(b, "resolvo::internal::arena::Arena::alloc", CACHE_ADT, arena):
+            lv = q.leaves(b, t["args"][1]) if len(t["args"]) > 1 else set()
+            ctx.ob(rule + tag, b.key, "allocated-answer-is-the-provider's:%s" % arena, ("call:" + call) in lv, where_call(b, i),
+                   "the value allocated in %s is computed from D::%s (sources: %s)" % (arena, call, ", ".join(sorted(x for x in lv if x.startswith("call:")))[:120]))
 
 
 def choke_points(ctx, rule, crate, tag=""):
